@@ -70,7 +70,9 @@ func c20Bits(w []bool) string {
 // white-box snapshot of the real counter; requests is only ever read modulo N (HandleRequest, info),
 // so the key keeps requests%N - two states that differ only in requests/N have identical futures.
 func c20Snap(b *BlackHoleSuccessCounter) string {
-	return fmt.Sprintf("w=%s r=%d s=%d st=%d", c20Bits(b.dialResults), b.requests%b.N, b.successes, b.state)
+	// (fields this harness does not know about - added by a later change - join the key as they are)
+	return fmt.Sprintf("w=%s r=%d s=%d st=%d", c20Bits(b.dialResults), b.requests%b.N, b.successes, b.state) +
+		seqmc.ExtraFields(b, "N", "MinSuccesses", "Name", "mu", "requests", "dialResults", "successes", "state")
 }
 
 func (m *c20Model) snap() string { return "w=" + c20Bits(m.window) }
